@@ -277,7 +277,19 @@ fn http_label(ep: usize, body_len: usize, code: u8) -> String {
 // ---------------------------------------------------------------------------------------------
 fn gen_valid(r: &mut Rng) -> String {
     let sc = pick_scen(r, false);
-    let b = random_base(r, &sc);
+    let b = if r.chance(1, 3) {
+        // the holder of the prepared appointment, properly signed: the state decides
+        let n = 40 + r.below(200) as usize;
+        let blob = r.bytes(n);
+        match r.below(4) {
+            0 => base_register(1, true),
+            1 => base_add(r, 1, LOC_HELD, &blob, 42, 0),
+            2 => base_get(r, 1, LOC_HELD, 0),
+            _ => base_getsub(r, 1, 0),
+        }
+    } else {
+        random_base(r, &sc)
+    };
     let body = b.json.text().into_bytes();
     let label = if body.len() > CAPS[b.ep] { "I0".into() } else { verdict(&sc, &b) };
     post(&sc, label, "valid", b.ep, body)
@@ -309,10 +321,24 @@ fn gen_mutation(r: &mut Rng) -> String {
         b = base_register(b.uid, true);
     }
     let ep = b.ep;
-    let path = *r.pick(FIELDS[ep]);
+    // a (field, mutation) pair that applies
+    let (path, choice) = loop {
+        let path = *r.pick(FIELDS[ep]);
+        let k = r.below(12);
+        let applies = match k {
+            4 => path != "appointment" && path != "appointment.to_self_delay",
+            5..=8 => is_hex_field(path),
+            9 => path == "appointment.to_self_delay",
+            10 => path.ends_with("signature"),
+            _ => true,
+        };
+        if applies {
+            break (path, k);
+        }
+    };
     let leaf = path.rsplit('.').next().unwrap().to_string();
     let mut j = b.json.clone();
-    let (kind, code): (&str, Option<u8>) = match r.below(12) {
+    let (kind, code): (&str, Option<u8>) = match choice {
         0 => {
             let (o, k) = j.parent_mut(path);
             o.retain(|(kk, _)| kk != k);
@@ -580,7 +606,7 @@ pub fn random_case(r: &mut Rng) -> String {
         58..=69 => gen_raw(r),
         70..=79 => gen_route(r),
         80..=89 => gen_frame(r),
-        90..=97 => gen_size(r),
+        90..=98 => gen_size(r),
         _ => gen_sock(r),
     }
 }
